@@ -381,7 +381,7 @@ func genC05(r *plan.Rng) *plan.Plan {
 
 	// injected faults
 	if r.Chance(1, 4) {
-		kind := []string{"runtimeError", "nilDeref", "error", "string", "fmtString"}[r.Intn(5)]
+		kind := []string{"runtimeError", "nilDeref", "error", "string", "fmtString", "customError", "wrappedError"}[r.Intn(7)]
 		p.Faults = append(p.Faults, plan.Fault{Kind: plan.FaultPanicAtStep, Task: 0, Run: 0, Step: r.Range(0, 120), Val: kind})
 	}
 	if needHost && r.Chance(2, 3) {
